@@ -180,3 +180,31 @@ CHECKS["C17"] = dict(
     level_text="All inputs of the stated finite families are pushed through the real writers and parsers; round trips are compared exactly and garbage runs under ASan/UBSan with a watchdog.",
     level_note="Trusted: harness PGN writer (standard movetext with numbers, comments in braces, $NAGs, parenthesised variations) and the oracle's legal move lists.",
 )
+
+# ------------------------------------------------------------------------------------------ C18
+def c18_parts(tier, seed):
+    T = "c18_book"
+    return [
+        P("allcodes", T, "seq", ["--part", "allcodes"], require=["nontrivial"]),
+        P("wellformed", T, "seq", ["--part", "wf"], workers=4, require=["nontrivial"]),
+        P("truncations", T, "seq", ["--part", "trunc"], require=["nontrivial"]),
+        P("byte-corruptions", T, "seq", ["--part", "bytes"], require=["nontrivial"]),
+        P("permutations", T, "seq", ["--part", "perm"], require=["nontrivial"]),
+        P("builtin", T, "seq", ["--part", "builtin"], require=["nontrivial"]),
+    ]
+
+CHECKS["C18"] = dict(
+    parts=c18_parts,
+    rule="states = (position, book file) pairs probed, each generated once (all 65536 move codes x 5 positions; every truncation, head cut, single-byte substitution and entry "
+         "permutation of four well-formed 8-entry books; every position along every built-in book line); transitions = getBookMove calls (one per RNG outcome); "
+         "non-trivial = the probe returned a move for at least one RNG outcome",
+    alphabet="book sources: built-in book, polyglot files in memory (memfd); faults: truncation to every length, head cuts, every single-byte substitution, all 8! entry orders, "
+             "missing file; environment: every outcome of Random::nextInt (scripted through ld --wrap)",
+    oracle="result is the empty move or legal per the independent oracle; well-formed book: result in the moves stored under key(P), every positive-weight move returned for some r, "
+           "zero-weight moves never; built-in book: result in the stored entries and every entry reachable",
+    bound=dict(quick="complete (same as thorough)", thorough="complete"),
+    assumptions=["for corrupted weight bytes (sum of weights > 4096) outcomes are enumerated by bisection over r plus the first/last 64 values, assuming selection is monotone in r"],
+    technique="exhaustive fault enumeration (every truncation / byte corruption / permutation) and exhaustive environment enumeration (every RNG outcome) on the real book probe",
+    level_text="Every fault of the stated families and every RNG outcome is executed against the real Book::getBookMove; legality is judged by an independent oracle.",
+    level_note="Trusted: the oracle's legal move lists; book files larger than 8 entries and multi-byte corruptions are not covered.",
+)
